@@ -124,7 +124,8 @@ impl Runtime {
             }
         };
         let t = self.trace.borrow().clone();
-        if fresh || self.runs % 256 == 0 {
+        // exports persist in a Koto instance: scripts that export start the next script clean
+        if fresh || self.runs % 256 == 0 || script.contains("export ") {
             // a failed run may leave residue in the VM (C07's subject); start clean
             *self = Runtime::new_keep_runs(self.runs);
         }
@@ -245,6 +246,10 @@ struct Def {
     /// among `caps` (capture-list order of the model; the real order is unobservable). The body
     /// reports `f == null` for it (name 0).
     self_ref: Option<usize>,
+    /// ids the body reads that are exported only AFTER the function was created (not locals, not
+    /// captures, not prelude entries): resolved through the module's exports when the function runs.
+    /// (name, value at call time, read through a thunk call `vN()` instead of `vN`)
+    lates: Vec<(u32, V, bool)>,
 }
 
 fn entry_sexp(e: &Entry) -> String {
@@ -331,7 +336,7 @@ impl Def {
     }
     fn sexp(&self) -> String {
         format!(
-            "(fn (ps{}) {} {} (caps{}) (dv{}) (cv{}) (self {}))",
+            "(fn (ps{}) {} {} (caps{}) (dv{}) (cv{}) (self {})",
             self.params.iter().map(|p| format!(" {}", pat_sexp(&p.pat))).collect::<String>(),
             self.n_opt(),
             self.variadic as u8,
@@ -339,7 +344,7 @@ impl Def {
             self.params.iter().filter_map(|p| p.default.as_ref()).map(|v| format!(" {}", v.canon())).collect::<String>(),
             self.cap_vals().iter().map(|c| format!(" {}", c)).collect::<String>(),
             match self.self_ref { Some(j) => j.min(self.caps.len()).to_string(), None => "-".into() },
-        )
+        ) + &format!(" (late{}))", self.lates.iter().map(|(n, v, _)| format!(" ({} {})", n, v.canon())).collect::<String>())
     }
     /// script prefix: captured variables, the definition (defaults through `tick`), reassignment
     /// of the captured variables after creation, the instance map
@@ -369,6 +374,7 @@ impl Def {
         s.push_str(&format!("f = |{}|\n", ps.join(", ")));
         let mut items = vec!["(if self == null then null else self.tag)".to_string()];
         items.extend(self.names().iter().map(|n| if *n == 0 { "(f == null)".to_string() } else { format!("v{}", n) }));
+        items.extend(self.lates.iter().map(|(n, _, thunk)| if *thunk { format!("v{}()", n) } else { format!("v{}", n) }));
         let tuple = if items.len() == 1 { format!("({},)", items[0]) } else { format!("({})", items.join(", ")) };
         if self.generator {
             s.push_str(&format!("  yield {}\n", tuple));
@@ -377,6 +383,14 @@ impl Def {
         }
         for (n, _) in &self.caps {
             s.push_str(&format!("v{} = 'changed'\n", n));
+        }
+        // exported after the function exists: late-bound, resolved at call time
+        for (n, v, thunk) in &self.lates {
+            if *thunk {
+                s.push_str(&format!("export v{} = || {}\n", n, v.koto()));
+            } else {
+                s.push_str(&format!("export v{} = {}\n", n, v.koto()));
+            }
         }
         s.push_str("idf = |v| v\nm = {tag: 7, f, idm: |v| v}\na2 = {m}\na3 = {a2}\n");
         s
@@ -580,7 +594,9 @@ fn gen_def(rng: &mut Rng, n_req: usize, n_opt: usize, variadic: bool, n_caps: us
     let caps = (0..n_caps).map(|_| (ng.next(), small_val(rng, 1))).collect();
     let caps: Vec<(u32, V)> = caps;
     let self_ref = if rng.chance(1, 3) { Some(rng.below(caps.len() + 1)) } else { None };
-    Def { params, variadic, caps, generator: rng.chance(1, 6), self_ref }
+    let n_late = [0, 0, 1, 2, 3][rng.below(5)];
+    let lates = (0..n_late).map(|_| (ng.next(), small_val(rng, 1), rng.chance(1, 3))).collect();
+    Def { params, variadic, caps, generator: rng.chance(1, 6), self_ref, lates }
 }
 
 /// call arguments for a flat list of values: group runs into packed containers, add empty packs
@@ -1648,6 +1664,83 @@ fn capx_check(rt: &mut Runtime, case: &CapxCase, model: &str) -> Result<(), (Str
     Ok(())
 }
 
+
+// ------------------------------------------------------------------------------------------------
+// family `late` — functions that reach each other only through the module's exports
+//
+// n exported functions, each with 0–3 default arguments, 0–3 captures and 1–3 calls of functions
+// that are exported LATER than itself (late-bound: resolved through the exports when the function
+// runs), mutually recursive countdowns. (D) oracle = the guide: the result is computed directly.
+
+#[derive(Clone, Debug)]
+struct LateCase {
+    /// per function: number of defaults, captured values, callee index for the recursive step, tag
+    fns: Vec<(usize, Vec<i64>, usize, i64)>,
+    start: usize,
+    n: i64,
+    generator: bool,
+}
+
+impl LateCase {
+    fn koto(&self) -> String {
+        let mut s = String::new();
+        let mut tick = 0;
+        for (i, (n_opt, caps, callee, tag)) in self.fns.iter().enumerate() {
+            for (j, c) in caps.iter().enumerate() {
+                s.push_str(&format!("c{}_{} = {}\n", i, j, c));
+            }
+            let mut ps = vec!["n".to_string()];
+            for k in 0..*n_opt {
+                ps.push(format!("d{} = tick({}, {})", k, tick, 100 * (i + 1) + k));
+                tick += 1;
+            }
+            let mut parts = vec![tag.to_string()];
+            parts.extend((0..caps.len()).map(|j| format!("c{}_{}", i, j)));
+            parts.extend((0..*n_opt).map(|k| format!("d{}", k)));
+            let base = format!("({},)", parts.join(", "));
+            // the recursive step goes through an export; the same-named top-level variables are rebound
+            s.push_str(&format!("export p{} = |{}| if n < 1 then {} else p{}(n - 1)\n", i, ps.join(", "), base, callee));
+            for (j, _) in caps.iter().enumerate() {
+                s.push_str(&format!("c{}_{} = 'changed'\n", i, j));
+            }
+        }
+        if self.generator {
+            s.push_str(&format!("g = || yield p{}({})\ng().next().get()\n", self.start, self.n));
+        } else {
+            s.push_str(&format!("p{}({})\n", self.start, self.n));
+        }
+        s
+    }
+    fn expected(&self) -> (String, Vec<String>) {
+        let mut i = self.start;
+        let mut n = self.n;
+        while n >= 1 {
+            i = self.fns[i].2;
+            n -= 1;
+        }
+        let (n_opt, caps, _, tag) = &self.fns[i];
+        let mut items = vec![format!("i{}", tag)];
+        items.extend(caps.iter().map(|c| format!("i{}", c)));
+        items.extend((0..*n_opt).map(|k| format!("i{}", 100 * (i + 1) + k)));
+        let ticks: usize = self.fns.iter().map(|f| f.0).sum();
+        (format!("(t {})", items.join(" ")), (0..ticks).map(|t| format!("t{}", t)).collect())
+    }
+}
+
+fn gen_late(rng: &mut Rng) -> LateCase {
+    let n_f = 2 + rng.below(3);
+    let fns = (0..n_f)
+        .map(|i| {
+            let n_opt = rng.below(4);
+            let caps = (0..rng.below(4)).map(|_| rng.range(0, 9)).collect();
+            // mostly a function exported later (or itself / an earlier one)
+            let callee = if rng.chance(3, 4) { (i + 1 + rng.below(n_f - 1)) % n_f } else { rng.below(n_f) };
+            (n_opt, caps, callee, 10 + i as i64)
+        })
+        .collect();
+    LateCase { fns, start: rng.below(n_f), n: rng.range(0, 5), generator: rng.chance(1, 5) }
+}
+
 // ------------------------------------------------------------------------------------------------
 // family `share`
 
@@ -2170,6 +2263,8 @@ struct Pending {
     expect_trace: Option<Vec<String>>, // bind: ticks at creation
     ast: Option<CaseAst>,
     capx: Option<CapxCase>,
+    /// model-free cases: the expected canonical result and trace (the guide's answer)
+    expect_result: Option<(String, Vec<String>)>,
 }
 
 /// the abstract case a script was rendered from (what the shrinker works on)
@@ -2235,6 +2330,11 @@ impl CaseAst {
                 if d.self_ref.is_some() {
                     let mut d2 = d.clone();
                     d2.self_ref = None;
+                    out.push(CaseAst::Bind(d2, c.clone()));
+                }
+                for i in 0..d.lates.len() {
+                    let mut d2 = d.clone();
+                    d2.lates.remove(i);
                     out.push(CaseAst::Bind(d2, c.clone()));
                 }
                 if !matches!(c.form, Form::Paren) && !c.form.is_piped() {
@@ -2522,6 +2622,26 @@ impl Ctx {
             None => vec![String::new(); reqs.len()],
         };
         for (c, model) in cases.iter().zip(resps.iter()) {
+            if let Some((want, want_trace)) = &c.expect_result {
+                self.rep.case(&c.request, c.nontrivial);
+                self.rep.bump(&format!("family={}", c.family));
+                let (res, trace) = self.rt.run(&c.script);
+                if &res != want || &trace != want_trace {
+                    self.rep.violation(
+                        "D",
+                        &format!("D:C02:{}", c.family),
+                        json!({
+                            "family": c.family,
+                            "program": c.script,
+                            "request": c.request,
+                            "implementation": format!("{} | {}", trace.join(" "), res),
+                            "expected": format!("{} | {}", want_trace.join(" "), want),
+                            "why": "functions that reach each other through the module's exports (late-bound non-locals are resolved when the function runs; default values are evaluated once at creation; captures by copy)",
+                        }),
+                    );
+                }
+                continue;
+            }
             if let Some(cx) = &c.capx {
                 self.rep.case(&c.request, c.nontrivial);
                 self.rep.bump("family=capx");
@@ -2705,7 +2825,7 @@ fn compare(c: &Pending, res: &str, trace: &[String], model: &str) -> (bool, Stri
 }
 
 fn capx_case(c: &CapxCase) -> Pending {
-    Pending { family: "capx", request: c.request(), script: c.koto(None), nontrivial: true, expect_trace: None, ast: None, capx: Some(c.clone()) }
+    Pending { family: "capx", request: c.request(), script: c.koto(None), nontrivial: true, expect_trace: None, ast: None, capx: Some(c.clone()), expect_result: None }
 }
 
 /// smaller capx cases: a line removed anywhere in the body (blocks stay non-empty), a compound line
@@ -2803,6 +2923,7 @@ fn bind_case(d: &Def, c: &Call) -> Pending {
         expect_trace: Some(ticks),
         ast: Some(CaseAst::Bind(d.clone(), c.clone())),
         capx: None,
+        expect_result: None,
     }
 }
 
@@ -2817,6 +2938,7 @@ fn cap_case(script: &[Ex]) -> Pending {
         expect_trace: None,
         ast: Some(CaseAst::Cap(script.to_vec())),
         capx: None,
+        expect_result: None,
     }
 }
 
@@ -2834,11 +2956,12 @@ fn share_case(ops: &[SOp]) -> Pending {
         expect_trace: None,
         ast: Some(CaseAst::Share(ops.to_vec())),
         capx: None,
+        expect_result: None,
     }
 }
 
 fn gen_case(g: &GenCase) -> Pending {
-    Pending { family: "gen", request: g.request(), script: g.koto(), nontrivial: true, expect_trace: None, ast: Some(CaseAst::Gen(g.clone())), capx: None }
+    Pending { family: "gen", request: g.request(), script: g.koto(), nontrivial: true, expect_trace: None, ast: Some(CaseAst::Gen(g.clone())), capx: None, expect_result: None }
 }
 
 /// hand-written cases that pin the mutation classes of DESIGN §11 and the guide's own examples
@@ -2858,6 +2981,7 @@ fn fixed_cases(ctx: &mut Ctx) {
         caps: vec![(8, V::I(80)), (9, V::L(vec![V::I(9)]))],
         generator: false,
         self_ref: None,
+        lates: vec![],
     };
     let container = V::T(vec![V::I(1), V::L(vec![V::I(2), V::I(3), V::I(4)])]);
     for n_extra in 0..6usize {
@@ -2881,7 +3005,7 @@ fn fixed_cases(ctx: &mut Ctx) {
                         params.push(opt(2 + k as u32, V::I(20 + k as i64)));
                     }
                     let caps: Vec<(u32, V)> = (0..n_caps).map(|k| (10 + k as u32, V::I(70 + k as i64))).collect();
-                    let ds = Def { params, variadic: false, caps, generator, self_ref: Some(self_pos) };
+                    let ds = Def { params, variadic: false, caps, generator, self_ref: Some(self_pos), lates: vec![] };
                     for count in 1..=1 + n_opt {
                         let args: Vec<(V, bool)> = (0..count).map(|k| (V::I(100 + k as i64), false)).collect();
                         let form = [Form::Paren, Form::Free, Form::Inst(false), Form::PipedInst, Form::Piped(false)][(n_opt + n_caps + self_pos + count) % 5].clone();
@@ -2894,7 +3018,7 @@ fn fixed_cases(ctx: &mut Ctx) {
     // piped into a method through a chain of containers, 1-3 levels, with/without extra arguments,
     // packed extras, function and generator method: must equal the direct call m.f(x, ...)
     for generator in [false, true] {
-        let dm = Def { params: vec![id(1), opt(2, V::I(20)), id(3)], variadic: true, caps: vec![(4, V::I(40))], generator, self_ref: None };
+        let dm = Def { params: vec![id(1), opt(2, V::I(20)), id(3)], variadic: true, caps: vec![(4, V::I(40))], generator, self_ref: None, lates: vec![] };
         for depth in 1..=3u8 {
             for extra in 0..3usize {
                 let mut args = vec![(V::I(1), false)];
@@ -2909,7 +3033,7 @@ fn fixed_cases(ctx: &mut Ctx) {
         }
     }
     // packed arguments: empty pack before a non-empty one (negative offset), with and without pipe
-    let d3 = Def { params: vec![id(1), id(2), id(3)], variadic: false, caps: vec![], generator: false, self_ref: None };
+    let d3 = Def { params: vec![id(1), id(2), id(3)], variadic: false, caps: vec![], generator: false, self_ref: None, lates: vec![] };
     let e = || (V::L(vec![]), true);
     let p = |xs: Vec<i64>| (V::T(xs.into_iter().map(V::I).collect()), true);
     let packs: Vec<Vec<(V, bool)>> = vec![
@@ -2931,17 +3055,17 @@ fn fixed_cases(ctx: &mut Ctx) {
         }
         let mut piped = vec![(V::I(0), false)];
         piped.extend(args.clone());
-        let d4 = Def { params: vec![id(1), id(2), id(3), id(4)], variadic: false, caps: vec![], generator: false, self_ref: None };
+        let d4 = Def { params: vec![id(1), id(2), id(3), id(4)], variadic: false, caps: vec![], generator: false, self_ref: None, lates: vec![] };
         ctx.push(bind_case(&d4, &Call { pre: 0, depth: 1, form: Form::Piped(false), args: piped }));
     }
     // F-C02-3 / F-C02-4 (fixed): sole ellipsis patterns; generator calls with empty/short packs
     for pk in [Pat::Pk(Some(1)), Pat::Pk(None)] {
-        let ds = Def { params: vec![Param { pat: Pat::Tup(vec![pk.clone()]), default: None }, id(2)], variadic: false, caps: vec![], generator: false, self_ref: None };
+        let ds = Def { params: vec![Param { pat: Pat::Tup(vec![pk.clone()]), default: None }, id(2)], variadic: false, caps: vec![], generator: false, self_ref: None, lates: vec![] };
         for c in [V::T(vec![V::I(1), V::I(2), V::I(3)]), V::L(vec![V::I(1)]), V::T(vec![]), V::S("ab".into()), V::I(3)] {
             ctx.push(bind_case(&ds, &Call { pre: 0, depth: 1, form: Form::Paren, args: vec![(c.clone(), false), (V::I(9), false)] }));
         }
     }
-    let dg = Def { params: vec![id(1), opt(2, V::I(20))], variadic: false, caps: vec![(3, V::I(30))], generator: true, self_ref: None };
+    let dg = Def { params: vec![id(1), opt(2, V::I(20))], variadic: false, caps: vec![(3, V::I(30))], generator: true, self_ref: None, lates: vec![] };
     for args in [vec![e(), (V::I(1), false)], vec![(V::I(1), false), e()], vec![e(), e(), p(vec![1])], vec![p(vec![1]), e()], vec![p(vec![1, 2])]] {
         for form in [Form::Paren, Form::Free, Form::Inst(false)] {
             ctx.push(bind_case(&dg, &Call { pre: 0, depth: 1, form, args: args.clone() }));
@@ -3019,7 +3143,7 @@ fn corpus_cases(ctx: &mut Ctx, dir: &std::path::Path) {
         };
         let expect_trace = None;
         ctx.rep.bump("corpus");
-        ctx.push(Pending { family, request: req, script: script.to_string(), nontrivial: true, expect_trace, ast: None, capx: None });
+        ctx.push(Pending { family, request: req, script: script.to_string(), nontrivial: true, expect_trace, ast: None, capx: None, expect_result: None });
     }
 }
 
@@ -3071,7 +3195,7 @@ fn main() {
     kvh::quiet_panics();
     let args = Args::parse();
     let mut rep = Report::new("C02", &args);
-    rep.rule = "case = one script + the same abstract case for the model. bind: function definition (0-3 required, 0-3 optional with tick()-wrapped defaults, variadic?, 0-3 captures reassigned after creation, `_`, nested tuple patterns depth<=2 with leading/trailing ellipsis, map patterns {k}, {k as v}, {k as _}) x call form (paren, paren-free, piped, instance, generator call) x argument count arity-2..arity+2 x 0-2 (thorough 0-3) packed arguments of length 0-3 at any position (count grid enumerated exhaustively for plain parameters, random for rich ones); cap: random scripts with nested (1-3 deep)/recursive closures, assignment targets read anywhere in the right-hand side; capx: random function and generator bodies over the wider syntax (block if/for/while/until, switch, match with binding patterns and guards, inline if, string interpolation, tuples, assignments nested in expressions, multi-assignment with {x} and {k as x} targets reading same-named outer variables, nested closures 1-3 deep): accessed_non_locals of the real parser = Model/CaptureX.lean, declaratively free names are captured, closure run = parameter run; share: random histories over int/list variables, closures, defaults; gen: random generator bodies x 5 consumers. distinct = distinct request lines; non-trivial = bind: at least one parameter or capture, cap: defines a closure, share: calls a closure, gen: all".into();
+    rep.rule = "case = one script + the same abstract case for the model. bind: function definition (0-3 required, 0-3 optional with tick()-wrapped defaults, variadic?, 0-3 captures reassigned after creation, 0-3 ids exported after the function was created and read by the body directly or through a thunk call (late-bound through the module's exports), self reference, `_`, nested tuple patterns depth<=2 with leading/trailing ellipsis, map patterns {k}, {k as v}, {k as _}) x call form (paren, paren-free, piped, instance, generator call) x argument count arity-2..arity+2 x 0-2 (thorough 0-3) packed arguments of length 0-3 at any position (count grid enumerated exhaustively for plain parameters, random for rich ones); cap: random scripts with nested (1-3 deep)/recursive closures, assignment targets read anywhere in the right-hand side; capx: random function and generator bodies over the wider syntax (block if/for/while/until, switch, match with binding patterns and guards, inline if, string interpolation, tuples, assignments nested in expressions, multi-assignment with {x} and {k as x} targets reading same-named outer variables, nested closures 1-3 deep): accessed_non_locals of the real parser = Model/CaptureX.lean, declaratively free names are captured, closure run = parameter run; late: 2-4 exported functions with 0-3 default arguments and 0-3 captures each that call functions exported later than themselves (mutually recursive countdowns, also consumed by a generator), result and tick trace computed directly from the guide; share: random histories over int/list variables, closures, defaults; gen: random generator bodies x 5 consumers. distinct = distinct request lines; non-trivial = bind: at least one parameter or capture, cap: defines a closure, share: calls a closure, gen: all".into();
     let drv = if args.driver.is_empty() || args.has_flag("--no-driver") { None } else { Some(Driver::spawn(&args.driver)) };
     let mut ctx = Ctx { rt: Runtime::new(), drv, rep, pending: vec![] };
     if args.extra.windows(2).any(|w| w[0] == "--plant" && w[1] == "swap-free-args") {
@@ -3098,6 +3222,7 @@ fn main() {
             expect_trace: None,
             ast: None,
             capx: None,
+        expect_result: None,
         });
         ctx.flush();
         std::process::exit(ctx.rep.finish());
@@ -3126,6 +3251,12 @@ fn main() {
                     let lo = arity.saturating_sub(2);
                     let mut d = gen_def(&mut rng, n_req, n_opt, variadic, n_caps, false);
                     d.self_ref = if (n_req + n_opt + n_caps + variadic as usize) % 2 == 0 { Some((n_req + n_opt) % (n_caps + 1)) } else { None };
+                    // 0-3 late-bound exports, independent of the number of defaults and captures
+                    d.lates.truncate((n_req + 2 * n_opt + 3 * n_caps + variadic as usize) % 4);
+                    while d.lates.len() < (n_req + 2 * n_opt + 3 * n_caps + variadic as usize) % 4 {
+                        let n = 900 + d.lates.len() as u32;
+                        d.lates.push((n, V::I(n as i64), d.lates.len() % 2 == 1));
+                    }
                     for count in lo..=arity + 2 {
                         for form in 0..forms {
                             for n_packs in 0..=(if thorough { 2 } else { 1 }) {
@@ -3177,6 +3308,9 @@ fn main() {
             if c.pre > 0 {
                 ctx.rep.bump("bind:chained-pipe");
             }
+            if !d.lates.is_empty() {
+                ctx.rep.bump(&format!("bind:late-bound-exports={},defaults={},caps={}", d.lates.len(), d.n_opt().min(3), d.caps.len().min(3)));
+            }
             ctx.push(bind_case(&d, &c));
         }
     }
@@ -3204,6 +3338,22 @@ fn main() {
             ctx.rep.bump("capx:generator");
         }
         ctx.push(capx_case(&c));
+    }
+    // ---- late -------------------------------------------------------------------------------
+    let n_late = if thorough { 40000 } else { 3000 };
+    for _ in 0..n_late {
+        let c = gen_late(&mut rng);
+        let script = c.koto();
+        ctx.push(Pending {
+            family: "late",
+            request: format!("late {:?}", c),
+            script,
+            nontrivial: true,
+            expect_trace: None,
+            ast: None,
+            capx: None,
+            expect_result: Some(c.expected()),
+        });
     }
     // ---- share ------------------------------------------------------------------------------
     let n_share = if thorough { 150000 } else { 8000 };
